@@ -255,6 +255,11 @@ def execute(plan, zpool, op_timeout=30.0, on_event=None):
             name = op[0]
             if name == "crash":
                 z.end()
+                if len(op) > 1 and op[1] is not None and op[1] != z.salt:
+                    # the process comes back on another interpreter (other hash salt)
+                    zpool.release(z)
+                    z = zpool.acquire(op[1])
+                    nodes[ni] = z
                 z.fork(zpool.inproc)
                 for op2 in plan["nodes"][ni].get("reinit", []):
                     z.op(op2, op_timeout)
